@@ -25,7 +25,7 @@ type elemFn struct {
 	f, d1, d2  func(a float64) float64
 	du         func(dual.Number) dual.Number
 	hy         func(hyperdual.Number) hyperdual.Number
-	lo, hi     int // real part in [lo/8, hi/8]
+	lo, hi     int  // real part in [lo/8, hi/8]
 	zeroSpecal bool // the implementation has a special case at real part 0
 }
 
@@ -146,7 +146,7 @@ func checkElem(c elemCase) *vk.Failure {
 }
 
 func TestNumElementary(t *testing.T) {
-	vk.Run(t, "num-elementary", vk.Opts{Quick: 6000, Thorough: 200000, NoCrumb: true}, func(t *rapid.T) elemCase {
+	vk.Run(t, "num-elementary", vk.Opts{Quick: 6000, Thorough: 800000, NoCrumb: true}, func(t *rapid.T) elemCase {
 		fn := rapid.IntRange(0, len(elemFns)-1).Draw(t, "fn")
 		return elemCase{
 			Fn: fn,
@@ -236,12 +236,18 @@ var specials = []special{
 	{"dual.PowReal(+Inf,-2)", func() []float64 { return dn(dual.PowReal(dual.Number{Real: inf, Emag: 1}, -2)) }, []float64{0}},
 	{"dual.Abs(-2+3ϵ)", func() []float64 { return dn(dual.Abs(dual.Number{Real: -2, Emag: 3})) }, []float64{2, -3}},
 	{"dual.Abs(2+3ϵ)", func() []float64 { return dn(dual.Abs(dual.Number{Real: 2, Emag: 3})) }, []float64{2, 3}},
-	{"quat.Pow(0,0)", func() []float64 { q := quat.Pow(quat.Number{}, quat.Number{}); return []float64{q.Real, q.Imag, q.Jmag, q.Kmag} }, []float64{1, 0, 0, 0}},
+	{"quat.Pow(0,0)", func() []float64 {
+		q := quat.Pow(quat.Number{}, quat.Number{})
+		return []float64{q.Real, q.Imag, q.Jmag, q.Kmag}
+	}, []float64{1, 0, 0, 0}},
 	{"quat.Pow(0,-1)", func() []float64 {
 		q := quat.Pow(quat.Number{}, quat.Number{Real: -1})
 		return []float64{q.Real, q.Imag, q.Jmag, q.Kmag}
 	}, []float64{inf, 0, 0, 0}},
-	{"quat.PowReal(0,0)", func() []float64 { q := quat.PowReal(quat.Number{}, 0); return []float64{q.Real, q.Imag, q.Jmag, q.Kmag} }, []float64{1, 0, 0, 0}},
+	{"quat.PowReal(0,0)", func() []float64 {
+		q := quat.PowReal(quat.Number{}, 0)
+		return []float64{q.Real, q.Imag, q.Jmag, q.Kmag}
+	}, []float64{1, 0, 0, 0}},
 	{"quat.Sqrt(0)", func() []float64 { q := quat.Sqrt(quat.Number{}); return []float64{q.Real, q.Imag, q.Jmag, q.Kmag} }, []float64{0, 0, 0, 0}},
 	{"quat.Inv(Inf)", func() []float64 { q := quat.Inv(quat.Inf()); return []float64{q.Real, q.Imag, q.Jmag, q.Kmag} }, []float64{0, 0, 0, 0}},
 	{"quat.Abs(Inf)", func() []float64 { return []float64{quat.Abs(quat.Number{Real: 1, Imag: ninf})} }, []float64{inf}},
@@ -603,7 +609,7 @@ func checkAlg(c algCase) *vk.Failure {
 }
 
 func TestNumAlgebra(t *testing.T) {
-	vk.Run(t, "num-algebra", vk.Opts{Quick: 8000, Thorough: 300000, NoCrumb: true}, func(t *rapid.T) algCase {
+	vk.Run(t, "num-algebra", vk.Opts{Quick: 8000, Thorough: 1000000, NoCrumb: true}, func(t *rapid.T) algCase {
 		return algCase{Kind: rapid.IntRange(0, 4).Draw(t, "kind"), Seed: rapid.Uint64().Draw(t, "seed")}
 	}, checkAlg)
 }
